@@ -182,6 +182,17 @@ def main():
             if lvl != desc[k] or area != (k + 1) * 6.0:
                 chk.violation("large field %dx%d, p = %d/16: level %s / area %s, the definition gives level %s / %d cells" % (ny, nx, pn, lvl, area, desc[k], k + 1), sc, klass={"check": "large_contour"})
                 break
+            # ContourScales: the same field in other units (times 2^-40 / 2^40, exact) - same cells, level scaled
+            for e2 in (-40, 40):
+                s2 = 2.0 ** e2
+                lvl2, area2 = extract_percentile_contour(F * s2, (X, Y, np.zeros_like(X)), pct=pn / 16.0)
+                if area2 != area or lvl2 != lvl * s2:
+                    chk.violation("large field %dx%d, p = %d/16: in units scaled by 2^%d the contour has area %s / level %s, in the original units %s / %s" % (ny, nx, pn, e2, area2, lvl2, area, lvl), sc,
+                                  klass={"check": "contour_scales"})
+                    break
+            else:
+                continue
+            break
         if not np.array_equal(F, F0):
             chk.violation("extract_percentile_contour modifies the field it is given", sc, klass={"check": "inputs_modified"})
     # fields whose values do not sum exactly in floating point, at p = 1 (and just below): the contour holds every cell with
